@@ -129,7 +129,7 @@ def run_selection(ctx, T):
     mism, ncmp = [], 0
     CH = 250
     jobs = [(f"c19_sel_{i // CH}", coq_chain_file(T, cases[i:i + CH])) for i in range(0, len(cases), CH)]
-    res = core.coqc_many(jobs, timeout=600)
+    res = LT.coqc_many_consistent(jobs, timeout=600)
     coq_chains = []
     for (name, _), (rc, out) in zip(jobs, res):
         p = parse_chains(out) if rc == 0 else None
@@ -324,7 +324,7 @@ Definition lmax (l : list N) : N := fold_left N.max l 0.
 Eval vm_compute in (map (fun c => let e := fst c in let k := snd c in
   [if ok e then 1 else 0; rows e; cols e; storage e; lmax (allocs e k); lsum (allocs e k); N.of_nat (List.length (allocs e k)); lmax (leafwise e)]) cases).
 """
-    rc, out = core.coqc_text("c19_cost", text, timeout=300)
+    (rc, out), = LT.coqc_many_consistent([("c19_cost", text)], timeout=300)
     import re
     flat = " ".join(out.split())
     m = re.search(r"= (\[.*\]) : list \(list N\)", flat)
